@@ -157,6 +157,74 @@ class SweepMon(Ledger):
     def T(self, x):
         return len(self.rewards(x))
 
+    # -- hostile environment: exact ties between optimistic values -------------------------------------------------
+    def choose_reward(self, ctx, t, p, r):
+        """with case['adversary'] == 'tie': when possible the reward is chosen such that the evaluated cell's b-value
+        becomes bit-identical to the b-value another leaf already has - a leaf of the same depth with ANOTHER
+        evaluation count (StoSOO), a leaf of another depth (DOO: reward + delta(h); SOO: reward).  Continuous or coarse
+        discrete rewards never produce such ties; tie-breaking slips live exactly there.  The values are computed with
+        the very expressions the algorithms use (NumPy float64), and the reward is nudged by a few ulps until the two
+        b-values are bit-identical.  Only the workload is hostile: the oracle below is unchanged."""
+        import numpy as np
+        X = self.cell
+        if ctx.case.get("adversary") != "tie" or X is None:
+            return None
+        rng = self.__dict__.setdefault("_arng", np.random.default_rng([ctx.case.get("np_seed", 0), 8]))
+        if rng.random() >= 0.5:
+            return None
+        L = leaves_by_depth(self.part)
+        hx = X.get_depth()
+        top = rng.random() < 0.67  # ties at the top are the ones that decide something
+        try:
+            if self.fam == "StoSOO":
+                old = self.rewards(X)
+                ys = [y for y in L[hx] if y is not X and self.T(y) >= 1 and self.T(y) != len(old) + 1]
+                if not ys:
+                    return None
+                y = max(ys, key=self.value) if top else ys[int(rng.integers(len(ys)))]
+                C_ = np.log(self.n * self.k / self.delta)
+
+                def bval(rews):
+                    return float(np.sum(np.array(rews)) / len(rews) + np.sqrt(C_ / (2 * len(rews))))
+                by = bval(self.rewards(y))
+                m = len(old) + 1
+                r0 = float((by - float(np.sqrt(C_ / (2 * m)))) * m - float(np.sum(np.array(old)) if old else 0.0))
+                f = lambda cand: bval(old + [cand])
+            elif self.fam == "DOO":
+                if self.T(X) != 0:
+                    return None
+                ys = [y for d, l in L.items() for y in l if d != hx and self.T(y) >= 1]
+                if not ys:
+                    return None
+                y = max(ys, key=self.value) if top else ys[int(rng.integers(len(ys)))]
+                by = float(self.rewards(y)[0] + ctx.algo.delta(y.get_depth()))
+                off = float(ctx.algo.delta(hx))
+                r0 = by - off
+                f = lambda cand: float(np.float64(cand) + np.float64(off))
+            else:  # SOO: the value is the reward itself
+                if self.T(X) != 0:
+                    return None
+                ys = [y for d, l in L.items() for y in l if d != hx and self.T(y) >= 1]
+                if not ys:
+                    return None
+                y = max(ys, key=self.value) if top else ys[int(rng.integers(len(ys)))]
+                self.obs["adversarial_exact_ties_made"] += 1
+                return float(self.rewards(y)[0])
+            if not (math.isfinite(by) and math.isfinite(r0)) or abs(r0) > 1e300:
+                return None
+            cands, lo, hi = [r0], r0, r0
+            for _ in range(24):
+                lo, hi = float(np.nextafter(lo, -math.inf)), float(np.nextafter(hi, math.inf))
+                cands += [lo, hi]
+            for cand in cands:
+                if f(cand) == by:
+                    self.obs["adversarial_exact_ties_made"] += 1
+                    return float(cand)
+        except Exception:
+            return None
+        self.obs["adversarial_ties_not_representable"] += 1
+        return None
+
     def doo_delta(self, h):
         if self.user_delta is not None:
             return self.user_delta(h)
